@@ -89,6 +89,50 @@ Proof.
       * rewrite Hr, <- !app_assoc. reflexivity.
 Qed.
 
+(* the last word, spaces, the line break, blank lines, then an indented comment line *)
+Lemma plain_last_break_comment f s chunks spaces w tsp trail m t :
+  wf_word w = true ->
+  s_rest s = w ++ (sp tsp ++ [10] ++ bl trail ++ sp (S m)) ++ 35 :: t ->
+  plain_scalar_f (S f) false s chunks spaces =
+  Ok (after s (w ++ sp tsp ++ [10] ++ bl trail ++ sp (S m)), chunks ++ spaces ++ [w]).
+Proof.
+  intros Hw Hr.
+  assert (Hr' : s_rest s = w ++ print_psep (PBr tsp trail (S m)) ++ 35 :: t).
+  { rewrite Hr. cbn [print_psep]. rewrite <- !app_assoc. reflexivity. }
+  rewrite (plain_word_sep false f s chunks spaces w (PBr tsp trail (S m)) 35 t Hw); [| reflexivity | reflexivity | exact Hr'].
+  replace (35 =? c_hash) with true by reflexivity. cbn [orb print_psep]. reflexivity.
+Qed.
+
+Lemma value_spec_ic_plain vsp l0 more tsp cm trail :
+  wf_value (VFlow vsp (FPlain l0 more) tsp cm) = true ->
+  value_spec_ic (VFlow vsp (FPlain l0 more) tsp cm) trail.
+Proof.
+  cbn [wf_value]. intros H. apply andb_true_iff in H as [H Hcm]. apply andb_true_iff in H as [_ Hfl].
+  destruct (wf_plain_flat l0 more Hfl) as [Hw Hflat].
+  cbn [wf_flow] in Hfl. apply andb_true_iff in Hfl as [Hst _].
+  unfold wf_pline_start in Hst. apply andb_true_iff in Hst as [_ Hi].
+  destruct (wf_word_inv _ Hw) as (c & w' & Ew & Hc & Hc35 & Hok & Hlast).
+  rewrite Ew in Hi. cbn [first_is] in Hi. apply negb_true_iff in Hi.
+  destruct (indicator_facts _ Hi) as (_ & I39 & I34 & I124 & I62).
+  set (fl := flat_of_plain l0 more) in *.
+  intros m Heat _ c' r'. cbn [eats_value] in Heat. destruct cm as [tc|]; [discriminate|].
+  cbn [value_text value_meaning print_comment app]. rewrite print_plain_flat, mean_plain_flat. fold fl.
+  intros Ec' s t0 Hcol Hr.
+  assert (c' = c) by (rewrite Ew, <- !app_assoc in Ec'; cbn [app] in Ec'; inversion Ec'; reflexivity). subst c'.
+  unfold value_scan.
+  replace (mem_N c in_tokenize_1) with false by charfact.
+  replace (mem_N c in_tokenize_2) with false by charfact.
+  pose proof (scan_plain_flat false ((sp tsp ++ [10] ++ bl trail ++ sp (S m)) ++ 35 :: t0)
+                (sp tsp ++ [10] ++ bl trail ++ sp (S m))) as HS.
+  rewrite (HS) with (l := fl) (w := pl_first l0).
+  - f_equal. f_equal. f_equal. rewrite <- !app_assoc. reflexivity.
+  - intros f s' chunks spaces w Hw' Hr'. eapply plain_last_break_comment; eassumption.
+  - rewrite !app_length. cbn [length]. lia.
+  - exact Hw.
+  - exact Hflat.
+  - rewrite Hr, <- !app_assoc. reflexivity.
+Qed.
+
 (* ------------------------------------------------------------------ whole blocks *)
 
 Lemma print_items_length items : forallb wf_item items = true ->
